@@ -298,8 +298,20 @@ def role_claims(rng: Random, lines: list[tuple[str, str]], meta: dict[str, Any])
     # rival claims: two different devices named for one single-holder role (zone sensor, appliance control,
     # DHW sensor / valve) - the first of them possibly a device that is never heard itself
     for _ in range(rng.choice((0, 1, 1, 2))):
-        role = rng.choice(("04", "0F", "0F", "0D", "0E"))
+        role = rng.choice(("04", "0F", "0F", "0D", "0E", "0E"))
         idx_ = f"{rng.randrange(0, 12):02X}" if role == "04" else "00"
+        if role == "0E" and rng.random() < 0.5:
+            # one relay named as the hot-water valve (000E) and as the heating valve (010E) of the hot-water system
+            dev = rng.choice([d for d in devs if d[:2] == "13"] or [f"13:{rng.randrange(90000, 99999):06d}"])
+            for ix in rng.sample(("00", "01"), 2):
+                frame = f"045 RP --- {ctl} 18:006402 --:------ 000C 006 {ix}0E00{dev_hex(dev)}"
+                at = min(len(out), at + rng.choice((0, 1, 5)))
+                dtm = out[at - 1][0] if at else (out[0][0] if out else "2024-03-01T12:00:00.000000")
+                out.insert(at, (dtm, frame))
+                at += 1
+                n += 1
+            meta["one_relay_both_dhw_valves"] = meta.get("one_relay_both_dhw_valves", 0) + 1
+            continue
         typ = {"04": ("34", "22", "04", "03"), "0F": ("13", "10"), "0D": ("07",), "0E": ("13",)}[role]
         heard = [d for d in devs if d[:2] in typ]
         ghost = f"{rng.choice(typ)}:{rng.randrange(90000, 99999):06d}"
